@@ -162,3 +162,26 @@ func (s Shape) GoType(msgType, enumType string) (typ string, direct bool) {
 }
 
 func shapeKey(s Shape) string { return fmt.Sprintf("%s/%s/%s", s.Kind, s.Card, s.Pres) }
+
+var fieldSuffixes = []string{".Desc.IsList()", ".Desc.IsMap()", ".Desc.HasOptionalKeyword()", ".Desc.HasPresence()", ".Message.Desc.IsMapEntry()",
+	".Oneof.Desc.IsSynthetic()", ".Desc.Kind()", ".Desc.Kind().String()", ".Message.Desc.FullName()", ".Desc.Cardinality()"}
+
+// AnswerAny answers descriptor questions about ANY field (single-field worlds):
+// the field's provenance key is recovered from the decision key by suffix.
+func (s Shape) AnswerAny(dk, constRepr string) (int, bool) {
+	if len(dk) < 3 {
+		return 0, false
+	}
+	key := dk[2:]
+	for _, suf := range fieldSuffixes {
+		if strings.HasSuffix(key, suf) {
+			return s.Answer(strings.TrimSuffix(key, suf), dk, constRepr)
+		}
+	}
+	for _, link := range []string{".Oneof)", ".Message)", ".Enum)"} {
+		if strings.HasPrefix(key, "isnil(") && strings.HasSuffix(key, link) {
+			return s.Answer(strings.TrimSuffix(strings.TrimPrefix(key, "isnil("), link), dk, constRepr)
+		}
+	}
+	return 0, false
+}
